@@ -25,6 +25,7 @@ from lerax.policy.sac.base_sac import AbstractSACPolicy
 from lerax.space import Box
 from vlib import mdp
 from vlib.doubles import CounterState, TableQPolicy
+from vlib.algos import transplant
 from vlib.runner import Ctx
 
 NS, NA = 4, 3
@@ -187,9 +188,13 @@ class DetSACPolicy(AbstractSACPolicy):
         return None, self.atab[s], self.lptab[s]
 
 
+def _sac_kw(B, autotune):
+    return dict(batch_size=B, policy_frequency=2, autotune=autotune, q_lr=1e-2, policy_lr=1e-2, q_width_size=8, q_depth=1, buffer_size=64, learning_starts=1, num_envs=1)
+
+
 @functools.lru_cache(maxsize=None)
 def _sac(B, autotune):
-    return SAC(batch_size=B, policy_frequency=2, autotune=autotune, q_lr=1e-2, policy_lr=1e-2, q_width_size=8, q_depth=1, buffer_size=64, learning_starts=1, num_envs=1)
+    return SAC(**_sac_kw(B, autotune))
 
 
 @eqx.filter_jit
@@ -218,11 +223,11 @@ def _sac_batch(case):
 def oracle_sac(ctx: Ctx, case):
     B = len(case["rewards"])
     pol, buf = _sac_batch(case)
-    algo = eqx.tree_at(lambda a: a.gamma, _sac(B, case["autotune"]), jnp.asarray(case["gamma"]))
+    algo = transplant(_sac(B, case["autotune"]), _sac_kw(B, case["autotune"]), gamma=float(case["gamma"]))
     ks = jr.split(jr.key(case["k_nets"]), 4)
     qf1, qf2, qf1_t, qf2_t = [SoftQNetwork(NS, 2, width_size=8, depth=1, key=k) for k in ks]
     q_params = (eqx.filter(qf1, eqx.is_inexact_array), eqx.filter(qf2, eqx.is_inexact_array))
-    q_opt_state = algo.q_optimizer.init(q_params)
+    q_opt_state = _warm(algo.q_optimizer, algo.q_optimizer.init(q_params), q_params, jr.key(case["k_nets"] + 1))
     opt_state = algo.optimizer.init(eqx.filter(pol, eqx.is_inexact_array))
     log_alpha = jnp.log(jnp.asarray(case["alpha"]))
     alpha_opt_state = algo.alpha_optimizer.init(log_alpha)
@@ -303,13 +308,17 @@ IT_COMBOS = {
 }
 
 
-@functools.lru_cache(maxsize=None)
-def _it_algo(combo):
+def _it_kw(combo):
     name, nS, nA, shape, B, L, E, S = IT_COMBOS[combo]
     bs = E * (L + S)
     if name == "DQN":
-        return DQN(buffer_size=B, learning_starts=L, num_envs=E, num_steps=S, batch_size=bs, learning_rate=1e-2, target_update_interval=3)
-    return SAC(buffer_size=B, learning_starts=L, num_envs=E, num_steps=S, batch_size=bs, policy_lr=0.0, q_lr=1e-2, q_width_size=8, q_depth=1)
+        return dict(buffer_size=B, learning_starts=L, num_envs=E, num_steps=S, batch_size=bs, learning_rate=1e-2, target_update_interval=3)
+    return dict(buffer_size=B, learning_starts=L, num_envs=E, num_steps=S, batch_size=bs, policy_lr=0.0, q_lr=1e-2, q_width_size=8, q_depth=1)
+
+
+@functools.lru_cache(maxsize=None)
+def _it_algo(combo):
+    return (DQN if IT_COMBOS[combo][0] == "DQN" else SAC)(**_it_kw(combo))
 
 
 @eqx.filter_jit
@@ -350,7 +359,7 @@ def oracle_iteration(ctx: Ctx, case):
     spec = case["spec"]
     env = mdp.make_env(spec)
     gamma = case["gamma"]
-    algo = eqx.tree_at(lambda a: a.gamma, _it_algo(combo), jnp.asarray(gamma))
+    algo = transplant(_it_algo(combo), _it_kw(combo), gamma=float(gamma))
     cb = StashCallback(())
     tags = {"algo": name, "via": "iteration"}
     if name == "DQN":
@@ -358,6 +367,7 @@ def oracle_iteration(ctx: Ctx, case):
         target = TableQPolicy(env, spec, case["q_t"], case["epsilon"], w=case["w_t"])
         state = _it_reset(algo, env, policy, jr.key(case["key"]), cb)
         state = eqx.tree_at(lambda s_: s_.target_policy, state, target)
+        state = eqx.tree_at(lambda s_: s_.opt_state, state, _warm(algo.optimizer, state.opt_state, eqx.filter(policy, eqx.is_inexact_array), jr.key(case["key"] + 5)))
     else:
         policy = TableSACPolicy(env, spec, case["atab"], 0.0)
         state = _it_reset(algo, env, policy, jr.key(case["key"]), cb)
@@ -365,6 +375,8 @@ def oracle_iteration(ctx: Ctx, case):
         like = state.qf1
         fresh = lambda k: jax.tree.map(lambda x, n: n if eqx.is_inexact_array(x) else x, like, jax.tree.map(lambda x: x, _randomised(like, k)))
         state = eqx.tree_at(lambda s_: (s_.qf1_target, s_.qf2_target), state, (fresh(k1), fresh(k2)))
+        q_params0 = (eqx.filter(state.qf1, eqx.is_inexact_array), eqx.filter(state.qf2, eqx.is_inexact_array))
+        state = eqx.tree_at(lambda s_: s_.q_opt_state, state, _warm(algo.q_optimizer, state.q_opt_state, q_params0, jr.key(case["key"] + 5)))
     new = _it_iterate(algo, state, jr.key(case["key"] + 1), cb)
     rows, n = _stored_rows(new.step_state.buffer, E)
     if n != E * (L + S):
@@ -457,6 +469,13 @@ def oracle_iteration(ctx: Ctx, case):
         classes=[k for k, v in fl.items() if v] + ["mixed"] * mixed + [combo],
         key=[combo, fl["timeout"], fl["terminated"], mixed, case["key"] % 128],
     )
+
+
+def _warm(optimizer, opt_state, params, key):
+    """An optimiser state with non-zero moments: the very first Adam step is lr*sign(g) and therefore blind to the scale of
+    the gradient (and so to gamma or a wrong target); after one step on a random gradient the update depends on g itself."""
+    g = _randomised(params, key)
+    return optimizer.update(g, opt_state, params)[1]
 
 
 def _randomised(tree, key):
